@@ -536,6 +536,21 @@ func init() {
 			rp := &Replay{Variants: []*pipeline.Variant{v}}
 			c := c18Case{Kind: kind}
 			c.Target = rapid.SampledFrom(v.Cfg.Types).Draw(t, "target")
+			if rapid.IntRange(0, 3).Draw(t, "deeptarget") != 0 {
+				// three cases in four: the selected type with the deepest reference graph
+				best := -1
+				for _, tn := range v.Cfg.Types {
+					d := 0
+					for _, h := range hostsBelow(v.File, tn) {
+						if h[0] > d {
+							d = h[0]
+						}
+					}
+					if d > best {
+						best, c.Target = d, tn
+					}
+				}
+			}
 			hosts := hostsBelow(v.File, c.Target)
 			names := make([]string, 0, len(hosts))
 			for n := range hosts {
@@ -546,9 +561,12 @@ func init() {
 			sort.Strings(names)
 			// prefer deep hosts
 			c.Host = rapid.SampledFrom(names).Draw(t, "host")
-			for _, n := range names {
-				if hosts[n][0] > hosts[c.Host][0] && rapid.Bool().Draw(t, "deeper") {
-					c.Host = n
+			if rapid.IntRange(0, 3).Draw(t, "deepest") != 0 {
+				// three cases in four: the deepest host (ties broken by name)
+				for _, n := range names {
+					if hosts[n][0] > hosts[c.Host][0] {
+						c.Host = n
+					}
 				}
 			}
 			c.Depth, c.BehindCollection = hosts[c.Host][0], hosts[c.Host][1] == 1
